@@ -16,7 +16,7 @@ def _fmt(m):
 def _impl_pair(a):
     from aioswitcher.schedule.tools import calc_duration
     try:
-        return "ok " + C.ut(calc_duration(_fmt(a[0]), _fmt(a[1])))
+        return "ok " + C.ut(C.call_in_form(calc_duration, ("start_time", "end_time"), (_fmt(a[0]), _fmt(a[1])), a[2] if len(a) > 2 else "positional"))
     except Exception as e:
         return "raise " + C.exc_name(e)
 
@@ -24,8 +24,8 @@ def _impl_pair(a):
 PAIR = C.Kind("calc_duration", impl=_impl_pair, model=lambda a: f"calcdur {C.ut(_fmt(a[0]))} {C.ut(_fmt(a[1]))}",
               judge=lambda a, o: [(f"c14 {a[0]} {a[1]} {o[3:] if o.startswith('ok ') else 'u:-'}", "1")],
               classify=lambda a, o: "equal" if a[0] == a[1] else "wraps" if a[1] < a[0] else "same-day",
-              nontrivial=lambda a, o: tuple(a) if a != (0, 0) else None,
-              shrink=lambda a: [(a[0] // 2, a[1]), (a[0], a[1] // 2), (a[0] - 1, a[1]), (a[0], a[1] - 1)] if min(a) > 0 else [])
+              nontrivial=lambda a, o: tuple(a) if tuple(a[:2]) != (0, 0) else None,
+              shrink=lambda a: [x + tuple(a[2:]) for x in ((a[0] // 2, a[1]), (a[0], a[1] // 2), (a[0] - 1, a[1]), (a[0], a[1] - 1))] if min(a[:2]) > 0 else [])
 
 
 def _impl_text(a):
@@ -119,6 +119,11 @@ def streams(ctx):
         for lo in range(0, 1440, 60):
             ctx.run_cases(PAIR, "all-1440x1440-pairs", [(a, b) for a in range(lo, lo + 60) for b in range(1440)], exhaustive=True,
                           sample_every=40000)
+    # the same function with its arguments spelled differently (by keyword, in either order, through functools.partial), and asked
+    # again for pairs it has been asked before
+    forms = [(rng.randrange(1440), rng.randrange(1440), f) for f in C.CALL_FORMS[1:] for _ in range(ctx.n(150, 3000))]
+    forms += [(a, b, f) for (a, b, f) in forms[:200]]
+    ctx.run_cases(PAIR, "arguments-by-keyword-in-either-order-or-through-partial", forms, exhaustive=False, sample_every=499)
     zc = _zoned_cases(rng, ctx.n(9, 40), ctx.n(40, 200))
     ctx.run_cases(ZONED, "zones-and-dates(DST days first)", zc, exhaustive=False, sample_every=max(1, len(zc) // 3))
     # the duration reported for schedules listed by a device (timestamps with seconds, on hosts in several zones): it is the rule
